@@ -44,6 +44,7 @@ type Profile struct {
 	UniformFeatures                                           bool // all nodes share PreVote/CheckQuorum
 	UniformTicks                                              bool // all nodes share ElectionTick/HeartbeatTick
 	PBigGroup                                                 int  // chance of a group of 8..10 ids
+	PNoCCVal                                                  int  // chance that the group runs with DisableConfChangeValidation
 	AllowZeroApplyQuota                                       bool
 	PSnapStored                                               int
 	MaxPayload                                                int
@@ -82,7 +83,7 @@ var Profiles = map[string]*Profile{
 	"snap": mkProfile("snap", map[string]int{"compact": 8, "lagcompact": 5, "snaprace": 4, "hold": 2, "isolate": 4, "heal": 4, "propose": 12, "proposeconf": 3, "dup": 5,
 		"reportsnap": 6, "crash": 2}, func(p *Profile) { p.PJoiner = 60 }),
 	"conf": mkProfile("conf", map[string]int{"proposeconf": 10, "tickcampaign": 4, "campaign": 3, "crash": 2, "restart": 6,
-		"isolate": 3, "compact": 3, "step": 20}, func(p *Profile) { p.PJoiner = 70 }),
+		"isolate": 3, "compact": 3, "step": 20}, func(p *Profile) { p.PJoiner = 70; p.PNoCCVal = 15 }),
 	"read": mkProfile("read", map[string]int{"readindex": 14, "isolate": 4, "heal": 3, "tickcampaign": 4, "campaign": 3, "proposeconf": 4,
 		"crash": 3, "restart": 8, "dup": 4, "step": 20}, func(p *Profile) { p.PLease = 0; p.PSingle = 25 }),
 	"flow": mkProfile("flow", map[string]int{"propose": 25, "proposebatch": 6, "drop": 8, "unreachable": 4, "dup": 4, "step": 15},
@@ -149,6 +150,7 @@ func DrawWorld(d Drawer, p *Profile) WorldOpts {
 	} else {
 		w.BootIndex = bi
 	}
+	noCCVal := pct(d, p.PNoCCVal, "noccval")
 	uniPre, uniCQ := pct(d, p.PPreVote, "uprevote"), pct(d, p.PCheckQuorum, "ucheckq")
 	mixed := !p.UniformFeatures && pct(d, 25, "mixed")
 	// node options are drawn for a fixed number of ids (only the first N are
@@ -157,6 +159,7 @@ func DrawWorld(d Drawer, p *Profile) WorldOpts {
 	const maxIDs = 10
 	for i := 1; i <= maxIDs; i++ {
 		o := drawNodeOpts(d, p, uint64(i), uniPre, uniCQ, mixed)
+		o.DisableConfChangeValidation = noCCVal
 		if i <= N {
 			w.Nodes[uint64(i)] = o
 		}
@@ -668,7 +671,54 @@ func (s *Sim) TickUntilCampaign(n *Node) {
 
 // randomConfChange proposes a conf change that is mostly valid with respect
 // to the harness's model of the committed configuration.
+// confChangeTokenFree implements the "reliable mechanism above raft that
+// serializes configuration changes" which DisableConfChangeValidation
+// demands: a conf change is proposed only at the leader, and only while no
+// conf-change entry is unapplied in any live log and none is in flight.
+func (s *Sim) confChangeTokenFree(n *Node) bool {
+	if n.RN.BasicStatus().RaftState != raft.StateLeader {
+		return false
+	}
+	for _, x := range s.upNodes() {
+		st := x.RN.VerifState()
+		if st.LastIndex > st.Applied {
+			ents, err := x.RN.VerifLogEntries(max(st.Applied+1, st.FirstIndex), st.LastIndex+1)
+			if err != nil {
+				return false
+			}
+			for _, e := range ents {
+				if isConfEntry(e) {
+					return false
+				}
+			}
+		}
+		if x.SM.Applied < st.Applied || len(x.ApplyQ) > 0 {
+			return false
+		}
+	}
+	for _, x := range s.downNodes() {
+		if x.Disk.last() > x.SM.Applied {
+			return false // its durable log may hold an unapplied conf change
+		}
+	}
+	for _, f := range s.Net.Pool {
+		if f.M.GetType() == pb.MsgProp {
+			for _, e := range f.M.GetEntries() {
+				if isConfEntry(e) {
+					return false
+				}
+			}
+		}
+	}
+	return true
+}
+
 func (s *Sim) randomConfChange(n *Node) {
+	if n.Opts.DisableConfChangeValidation && !s.confChangeTokenFree(n) {
+		s.begin("Noop (conf-change token busy)")
+		s.Stats.inc("conf.token_busy")
+		return
+	}
 	cc := s.drawConfChange()
 	s.ProposeConf(n, cc, s.D.Int(0, 1, "v1") == 1)
 }
@@ -873,6 +923,10 @@ func (s *Sim) Diverge(p *Profile) {
 // Every entry is tracked as its own proposal.
 func (s *Sim) proposeMixed(n *Node, p *Profile) {
 	d := s.D
+	if n.Opts.DisableConfChangeValidation && !s.confChangeTokenFree(n) {
+		s.begin("Noop (conf-change token busy)")
+		return
+	}
 	k := d.Int(2, 4, "mixed")
 	ccAt := d.Int(0, k-1, "ccpos")
 	var ents []*pb.Entry
